@@ -26,6 +26,14 @@ def main():
     res = dict(dir=d, property=prop, what=meta.get('what'), needs=meta.get('needs'))
     try:
         ap_ = sh('git -C %s apply %s' % (wt, os.path.join(d, 'patch.diff')))
+        if ap_.returncode != 0:
+            # written against an earlier commit of /repo (before a later fix: touched the same lines): use that commit
+            m_ = re.search(r'\b([0-9a-f]{7,40})\b', str((meta.get('confirmed') or {}).get('applies_on', '')) + ' ' + str(meta.get('base', '')))
+            if m_:
+                sh('git -C /repo worktree remove --force %s' % wt)
+                sh('git -C /repo worktree add -f %s %s' % (wt, m_.group(1)))
+                ap_ = sh('git -C %s apply %s' % (wt, os.path.join(d, 'patch.diff')))
+                res['applied_on'] = m_.group(1)
         res['applies'] = ap_.returncode == 0
         if not res['applies']:
             res['apply_output'] = ap_.stdout.decode()[-500:]
